@@ -45,6 +45,10 @@ def jobs(tier, rng):
     for acts in ([0, 2, 1], [1, 0, 0], [0, 0, 3], [2, 2, 0]):
         for extra in (dict(scf_backward=1), dict(scf_backward=2)):      # (the analytical-gradient path refuses ground / excited mixes)
             out.append(dict(mols=["h2co", "h2co", "h2co"], path="scf_exc", params=dict(scf_converger=[1], scf_eps=1e-8, excited_states={"n_states": 3, "method": "cis"}, active_state=acts, **extra)))
+    # all rows excited, on different states: the analytical-gradient path
+    for acts in ([1, 2, 3], [2, 1, 1], [3, 3, 1]):
+        for meth in ("cis", "rpa"):
+            out.append(dict(mols=["h2co", "h2co", "h2co"], path="scf_exc", params=dict(scf_converger=[1], scf_eps=1e-8, excited_states={"n_states": 3, "method": meth}, active_state=acts)))
     for mols in (["h2o"], ["ch4", "h2o"], ["nh3"]):
         out.append(dict(mols=mols, path="xl", params=dict(scf_converger=[1], scf_eps=1e-9)))
     if tier == "quick":
